@@ -153,8 +153,8 @@ CLAIMS = {
   'technique': 'TLA+ model checking (TLC) of Oracle o Encode = id + metamorphic replay of TLC-generated documents under all encodings + TLC trace validation of the observations',
  },
  'C18': {
-  'text': 'TLC enumerates Session.tla: every history of <=2 (thorough: kept histories of <=3 plus a spec-defined sample of 3-4) library calls over 8 documents (valid/invalid 837P 4010, many-AK3 837P, '
-          'valid/invalid 834 5010, 835, 270, two-interchange/eight-group file) x {validate with all sinks, context iteration, xml->x12 conversion} x reuse {none, params, maps}, plus for an 837 and an 835 the kinds {iteration by loop id observing the full iterate_loop_segments() event '
+  'text': 'TLC enumerates Session.tla: every history of <=2 (thorough: kept histories of <=3 plus a spec-defined sample of 3-4) library calls over 9 documents (valid/invalid 837P 4010, many-AK3 837P, '
+          'valid/invalid 834 5010, 835, 820, a 270 with two 2000A loops, two-interchange/eight-group file) x {validate with all sinks, context iteration, xml->x12 conversion} x reuse {none, params, maps}, plus for an 837 and an 835 the kinds {iteration by loop id observing the full iterate_loop_segments() event '
           'stream and every segment text, the same with copy() of every yielded node}; each history is executed '
           'in one fresh interpreter (hash seeds in rotation), Fresh(doc,kind) comes from one-call fresh interpreters under 6/12 hash seeds; verdict, error tree, XML, HTML, acknowledgement, node listing / '
           'converted text (masked only for ack date/time/control numbers and the HTML date line) and a fingerprint of watched globals are recorded as digests and trace-validated by TLC (T_Session): '
